@@ -530,6 +530,7 @@ func (x *Exec) enterBlock(fr *Frame, st *State, b, pred *ssa.BasicBlock, k Cont)
 			// back edge: invariant must be re-established, variant must decrease; path ends
 			x.bindPhis(fr, st, b, pred)
 			x.checkLoopInv(fr, st, li, "inv-step")
+			x.checkLoopStep(fr, st, li)
 			x.checkLoopLocks(fr, st, li)
 			x.checkLoopFrame(fr, st, li)
 			x.checkVariant(fr, st, li)
